@@ -6,6 +6,8 @@ import GridVerif.Props.C06.Select
 import GridVerif.Props.C06.Init
 import GridVerif.Props.C06.CallGen
 import GridVerif.Props.C06.Hirshfeld
+import GridVerif.Props.C06.CovRadii
+import GridVerif.Props.C06.Window
 
 #print axioms GridVerif.C06.switch_maps_unit
 #print axioms GridVerif.C06.switch_lt_one
@@ -59,3 +61,11 @@ import GridVerif.Props.C06.Hirshfeld
 #print axioms GridVerif.C06.hirshfeld_share_generated
 #print axioms GridVerif.C06.hirshfeld_sum_one_generated
 #print axioms GridVerif.C06.hirshfeld_needs_files
+#print axioms GridVerif.C06.get_cov_radii_generated
+#print axioms GridVerif.C06.get_cov_radii_bragg_eq
+#print axioms GridVerif.C06.cov_bragg_table_eq
+#print axioms GridVerif.C06.init_reads_generated_table
+#print axioms GridVerif.C06.cov_tables_shape
+#print axioms GridVerif.C06.cov_radii_positive_other
+#print axioms GridVerif.C06.alpha_raw_closed_form
+#print axioms GridVerif.C06.alpha_clip_window
